@@ -1,7 +1,7 @@
 (* C03 - inbound validation conforms to the per-version serial API.  Statements only. *)
 From Coq Require Import List NArith ZArith Bool String.
-From PMS Require Import Base.PyStr Model.Codec Model.Rules Model.TableTypes Gen.Tables
-  Model.Validate Spec.SerialApi Proofs.ValidateProofs.
+From PMS Require Import Base.PyStr Base.Version Model.Codec Model.Rules Model.TableTypes Gen.Tables
+  Model.Validate Model.Oracles Spec.SerialApi Proofs.ValidateProofs Proofs.VersionProofs Proofs.VersionCore.
 Import ListNotations.
 Open Scope Z_scope.
 
@@ -40,6 +40,39 @@ Theorem C03_validator_functions_unchanged :
                (s2p "FRgb", s2p "1d36f795cba6d63d"); (s2p "FRgbw", s2p "f19d72d3d74541eb")].
 Proof. exact validator_functions_unchanged. Qed.
 
+(* ---- "a version >= 1.4", numerically.  The machine's version verdict (Model/Oracles.v,
+   orc_version) is computed by the exact awesomeversion model of Base/Version.v on dotted
+   numeric payloads  [0-9]+(\.[0-9]+)*  and looked up in the oracle table only for other strings.
+
+   For every version table, every header that is otherwise valid for a node presentation and
+   every dotted numeric payload, whatever the oracle tables contain: the message validates
+   iff the payload is numerically >= 1.4 - num_ge compares the lists of section values left to
+   right, a missing section counting as 0; it does not mention awesomeversion's algorithm. *)
+Theorem C03_node_presentation_version_numeric :
+  forall (orc : oracles) (v : ver) (n c a s : Z) (p : pstr),
+    0 <= n <= 255 -> 0 <= c <= 255 -> a = 0 \/ a = 1 ->
+    s = 17 \/ s = 18 ->                      (* S_ARDUINO_NODE / S_ARDUINO_REPEATER_NODE *)
+    dotted_numeric p = true ->
+    (validate (orc_version orc) (orc_float orc) (tab_of v) (mkMsg n c c_presentation a s p) = true
+     <-> num_ge (sections p) [1%N; 4%N] = true).
+Proof. exact node_presentation_version_numeric_iff. Qed.
+
+(* the modelled awesomeversion test of is_version, `not AwesomeVersion("1.4") > AwesomeVersion(p)`,
+   is that numeric comparison (for every string p) *)
+Theorem C03_version_test_is_numeric :
+  forall p, negb (av_gt_num (s2p "1.4") p) = num_ge (sections p) [1%N; 4%N].
+Proof. exact ver_ge14_num. Qed.
+
+(* all messages: validation over the generated tables with the machine's oracles equals the
+   hand-written spec whose version class is the numeric rule on dotted numeric payloads
+   (version_rule, Spec/SerialApi.v) and the oracle's verdict only on other strings *)
+Theorem C03_validate_conforms_numeric :
+  forall (orc : oracles) (v : ver) (m : msg),
+    validate (orc_version orc) (orc_float orc) (tab_of v) m =
+    spec_accepts (version_rule (orc_version orc)) (orc_float orc) v
+                 (m_node m) (m_child m) (m_type m) (m_ack m) (m_sub m) (m_payload m).
+Proof. exact validate_conforms_numeric. Qed.
+
 (* non-vacuity: concrete accept / reject decisions of the generated tables *)
 Example C03_example_accept :
   validate (fun _ => true) (fun _ => FErr) tab_22 (mkMsg 1 1 1 0 22 (s2p "Auto")) = true /\
@@ -49,9 +82,43 @@ Example C03_example_accept :
   validate (fun _ => true) (fun _ => FErr) tab_20 (mkMsg 1 255 1 0 2 (s2p "1")) = false.
 Proof. vm_compute. repeat split; reflexivity. Qed.
 
+(* numeric versions: the boundary spellings, decided with EMPTY oracle tables and with tables
+   that claim the opposite *)
+Definition C03_vmsg (p : string) : msg := mkMsg 1 255 c_presentation 0 17 (s2p p).
+Definition C03_lying (b : bool) : oracles :=
+  mkOracles (map (fun p => (s2p p, (b, 3%nat)))
+                 ["1.4"; "1.4.0"; "1.04"; "2"; "10.0"; "1.3.9"; "1.3"; "0.9"; "1"]%string) [].
+Example C03_numeric_versions_accepted :
+  map (fun p => validate (orc_version no_oracles) (orc_float no_oracles) tab_22 (C03_vmsg p))
+      ["1.4"; "1.4.0"; "1.04"; "2"; "10.0"]%string = [true; true; true; true; true] /\
+  map (fun p => validate (orc_version (C03_lying false)) (orc_float no_oracles) tab_14 (C03_vmsg p))
+      ["1.4"; "1.4.0"; "1.04"; "2"; "10.0"]%string = [true; true; true; true; true] /\
+  map (fun p => dotted_numeric (s2p p) && num_ge (sections (s2p p)) [1%N; 4%N])
+      ["1.4"; "1.4.0"; "1.04"; "2"; "10.0"]%string = [true; true; true; true; true].
+Proof. vm_compute. repeat split; reflexivity. Qed.
+Example C03_numeric_versions_rejected :
+  map (fun p => validate (orc_version no_oracles) (orc_float no_oracles) tab_22 (C03_vmsg p))
+      ["1.3.9"; "1.3"; "0.9"; "1"]%string = [false; false; false; false] /\
+  map (fun p => validate (orc_version (C03_lying true)) (orc_float no_oracles) tab_14 (C03_vmsg p))
+      ["1.3.9"; "1.3"; "0.9"; "1"]%string = [false; false; false; false] /\
+  map (fun p => dotted_numeric (s2p p) && negb (num_ge (sections (s2p p)) [1%N; 4%N]))
+      ["1.3.9"; "1.3"; "0.9"; "1"]%string = [true; true; true; true].
+Proof. vm_compute. repeat split; reflexivity. Qed.
+(* strings that are not dotted numeric still follow the oracle table *)
+Example C03_non_numeric_follows_oracle :
+  let o := mkOracles [(s2p "2.0.0-beta", (true, 2%nat)); (s2p "latest", (false, 0%nat))] [] in
+  dotted_numeric (s2p "2.0.0-beta") = false /\
+  validate (orc_version o) (orc_float o) tab_22 (C03_vmsg "2.0.0-beta") = true /\
+  validate (orc_version o) (orc_float o) tab_22 (C03_vmsg "latest") = false /\
+  validate (orc_version no_oracles) (orc_float no_oracles) tab_22 (C03_vmsg "2.0.0-beta") = false.
+Proof. vm_compute. repeat split; reflexivity. Qed.
+
 Print Assumptions C03_validate_conforms.
 Print Assumptions C03_subtypes_monotone.
 Print Assumptions C03_every_subtype_has_rule.
 Print Assumptions C03_child_schema_total.
 Print Assumptions C03_tables_well_kinded.
 Print Assumptions C03_validator_functions_unchanged.
+Print Assumptions C03_node_presentation_version_numeric.
+Print Assumptions C03_version_test_is_numeric.
+Print Assumptions C03_validate_conforms_numeric.
